@@ -742,6 +742,11 @@ def _c10_case(seed):
     files["core/sub/__init__.py"] = ""
     files["core/sub/deep.py"] = "from ..handlers import h\nfrom .. import m\n"
     files["core/m.py"] += "from .sub.deep import thing\nfrom .sub import deep\n"
+    # an OBJECT imported relatively from the package, and the root package imported by name (defect F10c: both showed up as additional internal nodes / imports
+    # when externals were included)
+    files["core/__init__.py"] = "CONST = 1\n"
+    files["core/handlers.py"] += f"from . import CONST\nimport {ROOT}\n"
+    files["core/sub/deep.py"] += "from .. import CONST\n"
     ext_edges = set()
     add_imports(files, rng, rng.randint(6, 14), externals=EXTERNALS)
     edges = edges_of(files)
